@@ -31,6 +31,14 @@ def gen_programs(rng, tier):
         elif c == 2:
             items.append(("I", rng.choice(["v", "p", "s", "c"]), rng.bytes(rng.range(0, 50)), None))
         progs.append(items)
+    # start-residue sweep: a first blob of every length 0, 4, .. 1100 puts the start of the next section on every
+    # 4-aligned in-page offset (255 of them, the 16-byte section header straddles the page checksum at 1008/1012/1016);
+    # the section that follows is a plain blob, then an image with data and mask
+    for k, pre in enumerate(range(0, 1104, 4)):
+        kind = "vpsc"[k % 4]
+        progs.append([("B", rng.bytes(pre)), ("B", rng.bytes(rng.range(17, 60))),
+                      ("I", kind, rng.bytes(rng.range(1, 40)), rng.bytes(rng.range(1, 30)) if k % 3 else None)])
+        progs.append([("B", rng.bytes(pre)), ("I", kind, rng.bytes(rng.range(20, 50)), rng.bytes(rng.range(20, 50)))])
     # images with BOTH a visual reference and a projection, every mask combination: each descriptor (data and mask of
     # each representation) must lead to its own data and a mask must be reported exactly where one was written
     for proj in "psc":
@@ -121,6 +129,6 @@ def run(rep, tier, rng, replay=None):
     rep.sample(dict(kind="writer program", items=[c01.item_tok(x)[:80] for x in progs[len(progs) // 2]], impl=c01.strip_xml(o_impl[len(progs) // 2])[:300]))
     rep.sample(dict(kind="crafted descriptor", case=cases[5], impl=a[5]))
     rep.cov["rule"] = ("writer programs with a blob or image payload of every listed length (all residues mod 4; residues mod 1020 as counted), random/patterned contents, "
-                       "0-1 sections before and after, all four image kinds with and without mask, several images per file; read back through the descriptors the reader reports; "
+                       "0-1 sections before and after, a sweep of the start of a blob / image section over all 255 aligned in-page offsets, all four image kinds with and without mask, several images per file; read back through the descriptors the reader reports; "
                        "plus crafted descriptors (past the end, into other sections, into checksum bytes, lengths near 2^64) and crafted section header lengths on resealed files: "
                        "Ok implies exactly the requested length. Implementation (debug+release) vs extracted model byte for byte. distinct = distinct programs / descriptor cases")
